@@ -35,7 +35,7 @@ func src(n ast.Node) string {
 type pkgFuncs map[string]*ast.FuncDecl
 
 var funcFile = map[string]string{} // pkg.func -> base name of its file
-var pkgs = map[string]pkgFuncs{} // package name -> funcs (server sub-packages are uniquely named)
+var pkgs = map[string]pkgFuncs{}   // package name -> funcs (server sub-packages are uniquely named)
 var pkgDir = map[string]string{}
 
 func load(root string) {
@@ -467,6 +467,164 @@ func goroutines() []goFact {
 	return out
 }
 
+// ---------- accept loops ----------
+
+// acceptFact: a `for` loop that takes connections off a listener (`conn, err := x.Accept()`), and what the statement guarding
+// the error does: does control leave the loop (return, or break / goto out of it) on an error that is not the service's own
+// shutdown (a `case <-ch:` of a select)? A loop that leaves on any error stops serving after one failed accept.
+type acceptFact struct {
+	pkg, in       string
+	leavesOnError bool
+	continues     bool
+}
+
+func acceptLoops() []acceptFact {
+	var out []acceptFact
+	for pkg, fs := range pkgs {
+		if pkg == "helpers" {
+			continue // test support
+		}
+		for name, fd := range fs {
+			ast.Inspect(fd.Body, func(n ast.Node) bool {
+				loop, ok := n.(*ast.ForStmt)
+				if !ok {
+					return true
+				}
+				for i, st := range loop.Body.List {
+					as, ok := st.(*ast.AssignStmt)
+					if !ok || len(as.Rhs) != 1 || !strings.HasSuffix(src(as.Rhs[0]), ".Accept()") {
+						continue
+					}
+					af := acceptFact{pkg: pkg, in: name}
+					if i+1 < len(loop.Body.List) {
+						if ifs, ok := loop.Body.List[i+1].(*ast.IfStmt); ok && strings.Contains(src(ifs.Cond), "err != nil") {
+							af.leavesOnError, af.continues = leaves(ifs.Body, false, 0, 0)
+						} else {
+							af.leavesOnError = true // the error is not looked at where it arises
+						}
+					}
+					out = append(out, af)
+				}
+				return true
+			})
+		}
+	}
+	sort.Slice(out, func(i, j int) bool { return out[i].pkg+out[i].in < out[j].pkg+out[j].in })
+	return out
+}
+
+// leaves: (a statement that ends the enclosing loop is reachable outside a receive case, a `continue` of the loop exists).
+// bd counts the statements a plain `break` would end (for, range, select, switch), ld the loops a plain `continue` would continue.
+func leaves(n ast.Node, inRecv bool, bd, ld int) (leave, cont bool) {
+	all := func(sts []ast.Stmt, recv bool, bd, ld int) (leave, cont bool) {
+		for _, st := range sts {
+			l, c := leaves(st, recv, bd, ld)
+			leave, cont = leave || l, cont || c
+		}
+		return
+	}
+	switch x := n.(type) {
+	case *ast.ReturnStmt:
+		return !inRecv, false
+	case *ast.BranchStmt:
+		switch x.Tok {
+		case token.CONTINUE:
+			return false, ld == 0 || x.Label != nil
+		case token.GOTO:
+			return !inRecv, false
+		case token.BREAK:
+			return !inRecv && (bd == 0 || x.Label != nil), false
+		}
+	case *ast.CommClause:
+		recv := inRecv
+		if x.Comm != nil && strings.Contains(src(x.Comm), "<-") {
+			recv = true
+		}
+		return all(x.Body, recv, bd, ld)
+	case *ast.ForStmt:
+		return all(x.Body.List, inRecv, bd+1, ld+1)
+	case *ast.RangeStmt:
+		return all(x.Body.List, inRecv, bd+1, ld+1)
+	case *ast.SelectStmt:
+		return all(x.Body.List, inRecv, bd+1, ld)
+	case *ast.SwitchStmt:
+		return all(x.Body.List, inRecv, bd+1, ld)
+	case *ast.TypeSwitchStmt:
+		return all(x.Body.List, inRecv, bd+1, ld)
+	case *ast.BlockStmt:
+		return all(x.List, inRecv, bd, ld)
+	case *ast.IfStmt:
+		l1, c1 := leaves(x.Body, inRecv, bd, ld)
+		l2, c2 := false, false
+		if x.Else != nil {
+			l2, c2 = leaves(x.Else, inRecv, bd, ld)
+		}
+		return l1 || l2, c1 || c2
+	case *ast.CaseClause:
+		return all(x.Body, inRecv, bd, ld)
+	case *ast.LabeledStmt:
+		return leaves(x.Stmt, inRecv, bd, ld)
+	}
+	return
+}
+
+// ---------- the clock of a silent IDLE ----------
+
+// idleClock: in extension.HandleIdle the limit is `time.Since(<v>) >= IdleTimeout`; how often is <v> assigned at all, and how
+// often inside a loop (every assignment in the loop restarts the client's silence)?
+func idleClock() (v string, assigns, inLoop int) {
+	fd := pkgs["extension"]["HandleIdle"]
+	if fd == nil {
+		return "", 0, 0
+	}
+	ast.Inspect(fd.Body, func(n ast.Node) bool {
+		if be, ok := n.(*ast.BinaryExpr); ok && strings.Contains(src(be.Y), "IdleTimeout") {
+			if ce, ok := be.X.(*ast.CallExpr); ok && src(ce.Fun) == "time.Since" && len(ce.Args) == 1 {
+				v = src(ce.Args[0])
+			}
+		}
+		return true
+	})
+	if v == "" {
+		return
+	}
+	var walk func(n ast.Node, loop bool)
+	walk = func(n ast.Node, loop bool) {
+		ast.Inspect(n, func(x ast.Node) bool {
+			switch y := x.(type) {
+			case *ast.ForStmt:
+				if y.Init != nil {
+					walk(y.Init, loop)
+				}
+				if y.Post != nil {
+					walk(y.Post, true)
+				}
+				walk(y.Body, true)
+				return false
+			case *ast.RangeStmt:
+				walk(y.Body, true)
+				return false
+			case *ast.AssignStmt:
+				for _, l := range y.Lhs {
+					if src(l) == v {
+						assigns++
+						if loop {
+							inLoop++
+						}
+					}
+				}
+			case *ast.UnaryExpr:
+				if y.Op == token.AND && src(y.X) == v {
+					assigns += 100 // its address escapes: anything may write it
+				}
+			}
+			return true
+		})
+	}
+	walk(fd.Body, false)
+	return
+}
+
 func resolve(pkg string, fun ast.Expr) *ast.FuncDecl {
 	switch f := fun.(type) {
 	case *ast.Ident:
@@ -622,6 +780,18 @@ func main() {
 		fmt.Fprintf(&b, "  { pkg := %s, inFunc := %s, target := %s, recovers := %s },\n", lb(g.pkg), lb(g.in), lb(g.target), bl(g.recovers))
 	}
 	b.WriteString("]\n\n")
+
+	// accept loops
+	b.WriteString("structure AcceptFact where\n  pkg : Bytes\n  inFunc : Bytes\n  leavesOnError : Bool\n  continues : Bool\nderiving Repr\n\n")
+	b.WriteString("def acceptLoops : List AcceptFact := [\n")
+	for _, a := range acceptLoops() {
+		fmt.Fprintf(&b, "  { pkg := %s, inFunc := %s, leavesOnError := %s, continues := %s },\n", lb(a.pkg), lb(a.in), bl(a.leavesOnError), bl(a.continues))
+	}
+	b.WriteString("]\n\n")
+	{
+		v, n, k := idleClock()
+		fmt.Fprintf(&b, "/-- the variable the silent-IDLE limit is measured from, its assignments, and those inside a loop -/\ndef idleClock : Bytes × Nat × Nat := (%s, %d, %d)\n\n", lb(v), n, k)
+	}
 
 	// calls that end the process from inside the service packages (not cmd/*, not the test-support files)
 	b.WriteString("structure ExitFact where\n  pkg : Bytes\n  inFunc : Bytes\n  call : Bytes\nderiving Repr\n\n")
